@@ -559,16 +559,37 @@ fn compute_intersection_residue_class(
         // The residue classes do not intersect, thus the intersection is empty.
         Ok(None)
     } else {
-        let lcm = (stride_left / gcd) * stride_right;
+        let overflow =
+            || anyhow!("Integer overflow during chinese remainder theorem computation.");
+        let lcm = (stride_left / gcd)
+            .checked_mul(stride_right)
+            .ok_or_else(overflow)?;
         // The residue class of the intersection is computed such that the following equations hold:
         // ```
         // residue_class = base_right   (modulo stride_right)
         // residue_class = base_left    (modulo stride_left)
         // ```
         // The `% lcm` operations are there to reduce the risk of integer overflows
-        let residue_class = ((base_right % lcm) / gcd * (left_inverse * stride_left)) % lcm // = base_right / gcd * gcd (modulo stride_right) 
-            + ((base_left % lcm) / gcd * (right_inverse * stride_right)) % lcm // = base_left / gcd * gcd (modulo stride_left)
-            + base_left % gcd; // = base_left % gcd = base_right % gcd
+        let summand_right = ((base_right % lcm) / gcd)
+            .checked_mul(
+                left_inverse
+                    .checked_mul(stride_left)
+                    .ok_or_else(overflow)?,
+            )
+            .ok_or_else(overflow)?
+            % lcm; // = base_right / gcd * gcd (modulo stride_right)
+        let summand_left = ((base_left % lcm) / gcd)
+            .checked_mul(
+                right_inverse
+                    .checked_mul(stride_right)
+                    .ok_or_else(overflow)?,
+            )
+            .ok_or_else(overflow)?
+            % lcm; // = base_left / gcd * gcd (modulo stride_left)
+        let residue_class = summand_right
+            .checked_add(summand_left)
+            .and_then(|sum| sum.checked_add(base_left % gcd)) // base_left % gcd = base_right % gcd
+            .ok_or_else(overflow)?;
                                // Ensure that the residue class is not negative
         let residue_class = residue_class.rem_euclid(lcm);
 
